@@ -22,13 +22,12 @@ LEVEL = "exploration"
 CASES = {"quick": 20000, "thorough": 600000}
 RULE = ("seeded random sequences (list/tuple/generator/ndarray, length 0-12) over bool,int,float,str,date,datetime,timedelta,bytes,opaque "
         "objects with None / float nan / np.float64 nan / NaT in any position, homogeneous or mixed, Python or NumPy scalars, with and "
-        "without an explicit dtype in {float,int,str,object,datetime64[D],datetime64[us]}; non-trivial = length >= 2 and at least one "
+        "without an explicit dtype in {float,int,int64,str,bool,S,object,datetime64[D],datetime64[us],datetime64[ns],timedelta64[us]}; non-trivial = length >= 2 and at least one "
         "missing or one non-missing element; distinct = distinct (element kind, scalar flavour, container, dtype argument, NA pattern, length class)")
 ASSUMPTIONS = [
     "for mixed-kind inputs NumPy's coercion decides the values: only missing positions and totality are judged there",
     "sequences whose elements are themselves sequences are excluded (NumPy makes them 2-d)",
     "cross-dtype transitivity of equal() uses |values| < 2**53",
-    "an explicit dtype that cannot represent NA and has no documented widening (bool) is driven for 'no crash' only",
 ]
 REACH = {"quick": {"kind:bool": 500, "kind:int": 500, "kind:str": 500, "kind:date": 300, "kind:timedelta": 200, "kind:bytes": 200, "kind:object": 200,
                    "kind:mixed": 500, "flavour:numpy": 1500, "na:all": 500, "na:first": 500, "len:0": 300, "dtype-arg": 3000}}
@@ -81,9 +80,9 @@ def generate(rng, tier):
         # only None can mark a missing element there, and no dtype argument is combined with it
         na_token = "None"
     if rng.random() < 0.3 and container != "ndarray_object":
-        dtype = {"bool": rng.choice(["object"]), "int": rng.choice(["int", "float", "object"]), "float": rng.choice(["float", "object"]),
+        dtype = {"bool": rng.choice(["object", "bool"]), "int": rng.choice(["int", "float", "object", "int64"]), "float": rng.choice(["float", "object"]),
                  "str": rng.choice(["str", "object"]), "date": rng.choice(["datetime64[D]", "object"]), "datetime": rng.choice(["datetime64[us]", "object"]),
-                 "timedelta": "object", "bytes": "object", "object": "object", "mixed": "object", "datetime_ns": "datetime64[ns]"}[kind]
+                 "timedelta": rng.choice(["object", "timedelta64[us]"]), "bytes": rng.choice(["object", "S"]), "object": "object", "mixed": "object", "datetime_ns": "datetime64[ns]"}[kind]
     return {"kind": kind, "values": vals, "marks": marks, "na_token": na_token, "flavour": flavour, "container": container, "dtype": dtype}
 
 def _na(token):
@@ -180,7 +179,7 @@ def execute(case):
         return res.dict()
     if len(tl) != n or any((t is None) != m for t, m in zip(tl, exp_na)):
         res.violate("tolist:na-not-none", f"{ctx}: tolist {canon.short(tl)} expected None exactly at {exp_na}")
-    elif judged_values and (not dtype or dtype in ("float", "int", "str", "datetime64[D]", "datetime64[us]")):
+    elif judged_values and (not dtype or dtype in ("float", "int", "str", "datetime64[D]", "datetime64[us]", "bool", "S", "int64", "timedelta64[us]")):
         for i, (t, x, m) in enumerate(zip(tl, vals, exp_na)):
             if m: continue
             a, b = canon.canon_obj(t), canon.canon_obj(x)
